@@ -52,6 +52,9 @@ struct Job {
     attr: String,
     /// item text if it differs from the seed's (extra derive_ex lists in front)
     item: Option<String>,
+    /// the item reaches the expander with invisible groups around simple type names and `by = ..` values (as if they
+    /// were `macro_rules!` fragments)
+    frag: bool,
 }
 
 struct Res {
@@ -73,6 +76,13 @@ fn check_dump_message(msg: &str, want_flat: &str) -> Result<(), String> {
 }
 
 fn run_job(seeds: &[Seed], j: &Job) -> Res {
+    expand::set_fragments(j.frag);
+    let r = run_job_inner(seeds, j);
+    expand::set_fragments(false);
+    r
+}
+
+fn run_job_inner(seeds: &[Seed], j: &Job) -> Res {
     let s = &seeds[j.seed];
     let mut problems = Vec::new();
     let base = expand::expand(j.entry, &s.attr, &s.item).and_then(|ts| expand::parse_output(ts, j.entry == Entry::Attr));
@@ -168,7 +178,7 @@ pub fn run(ctx: &Ctx, rep: &mut Report) {
         let entries: &[Entry] = if s.is_impl { &[Entry::Attr] } else { &Entry::BOTH };
         for &entry in entries {
             // shared
-            jobs.push(Job { seed: si, entry, dumped: None, attr: format!("{}, dump", s.attr), item: None });
+            jobs.push(Job { seed: si, entry, dumped: None, attr: format!("{}, dump", s.attr), item: None, frag: false });
             if s.is_impl {
                 continue;
             }
@@ -177,8 +187,8 @@ pub fn run(ctx: &Ctx, rep: &mut Report) {
                 for cut in [1, tpos.len() - 1] {
                     let g1: Vec<String> = (0..cut).map(|k| ps[tpos[k]].1.clone()).collect();
                     let g2: Vec<String> = (cut..tpos.len()).map(|k| ps[tpos[k]].1.clone()).collect();
-                    jobs.push(Job { seed: si, entry, dumped: Some((0..cut).collect()), attr: format!("{}, dump", g1.join(", ")), item: Some(format!("#[derive_ex({})] {}", g2.join(", "), s.item)) });
-                    jobs.push(Job { seed: si, entry, dumped: Some((cut..tpos.len()).collect()), attr: g1.join(", "), item: Some(format!("#[derive_ex({}, dump)] {}", g2.join(", "), s.item)) });
+                    jobs.push(Job { seed: si, entry, dumped: Some((0..cut).collect()), attr: format!("{}, dump", g1.join(", ")), item: Some(format!("#[derive_ex({})] {}", g2.join(", "), s.item)), frag: false });
+                    jobs.push(Job { seed: si, entry, dumped: Some((cut..tpos.len()).collect()), attr: g1.join(", "), item: Some(format!("#[derive_ex({}, dump)] {}", g2.join(", "), s.item)), frag: false });
                 }
             }
             let mut sets: Vec<Vec<usize>> = (0..tpos.len()).map(|k| vec![k]).collect();
@@ -190,10 +200,13 @@ pub fn run(ctx: &Ctx, rep: &mut Report) {
             }
             for set in sets {
                 let attr: Vec<String> = ps.iter().enumerate().map(|(i, p)| match tpos.iter().position(|&x| x == i) { Some(k) if set.contains(&k) => with_dump(&p.1), _ => p.1.clone() }).collect();
-                jobs.push(Job { seed: si, entry, dumped: Some(set), attr: attr.join(", "), item: None });
+                jobs.push(Job { seed: si, entry, dumped: Some(set), attr: attr.join(", "), item: None, frag: false });
             }
         }
     }
+    // every placement once more with fragment groups in the item
+    let with_frag: Vec<Job> = jobs.iter().map(|j| Job { frag: true, ..j.clone() }).collect();
+    jobs.extend(with_frag);
     if let Some(p) = &ctx.replay {
         let v: serde_json::Value = serde_json::from_str(&std::fs::read_to_string(p).expect("replay file")).expect("replay json");
         let (a, i, e) = (v["case"]["attr"].as_str().unwrap_or("").to_string(), v["case"]["item"].as_str().unwrap_or("").to_string(), v["case"]["entry"].as_str().unwrap_or("").to_string());
@@ -205,7 +218,7 @@ pub fn run(ctx: &Ctx, rep: &mut Report) {
     let res = par_map(&jobs, threads(), |_, j| run_job(&seeds, j));
     for (j, r) in jobs.iter().zip(res.iter()) {
         let s = &seeds[j.seed];
-        let text = format!("{} #[derive_ex({})] {}", j.entry.name(), j.attr, j.item.as_deref().unwrap_or(&s.item));
+        let text = format!("{}{} #[derive_ex({})] {}", j.entry.name(), if j.frag { " [fragment groups]" } else { "" }, j.attr, j.item.as_deref().unwrap_or(&s.item));
         rep.case(&text, r.nontrivial);
         if r.skipped {
             rep.outcome("skipped:baseline-not-per-trait");
@@ -217,6 +230,7 @@ pub fn run(ctx: &Ctx, rep: &mut Report) {
             atoms.insert(format!("entry={}", j.entry.name()));
             atoms.insert(format!("placement={}", match &j.dumped { None => "shared".to_string(), Some(v) => format!("per-trait{:?}", v) }));
             atoms.insert(format!("origin={}", s.origin));
+            atoms.insert(format!("fragment_groups={}", j.frag));
             rep.violation(Violation { symptom: sym.clone(), atoms, what: format!("#[derive_ex({})] {} via {}: {}", j.attr, s.item.chars().take(120).collect::<String>(), j.entry.name(), what), detail: json!({"entry": j.entry.name(), "attr": j.attr, "item": j.item.as_deref().unwrap_or(&s.item), "baseline_attr": s.attr}), standalone: None });
         }
         if r.problems.is_empty() && r.nontrivial && rep.samples.len() < 4 {
